@@ -91,7 +91,12 @@ TSConfs == [inner2Emb |-> [Inner2 |-> [type |-> "object", properties |-> [X |-> 
             innerUntyped |-> [Inner |-> [description |-> "custom"]],
             innerTypes |-> [Inner |-> [types |-> <<"object", "string">>]],
             embOverride |-> [Emb |-> [type |-> "object", properties |-> [q |-> [type |-> "string"], p |-> [type |-> "integer"]]]]]
-OCases == {[t |-> t, ign |-> ign, tsn |-> "none"] : t \in UNION {OBad, ORec, OMany}, ign \in BOOLEAN}
+\* jsonschema struct tags
+DescF(go, t, d) == Field(go, "", {}, t) @@ [desc |-> d]
+ODesc == {Struct("S", <<DescF("A", Prim("int8"), d), Field("B", "b", {"omitempty"}, Prim("string"))>>) : d \in {"the a", "", "k=v", "a=b c", "a b=c", " x=y"}}
+         \cup {Struct("S", <<DescF("A", Inner, "inner one"), DescF("B", Slice(Prim("string")), "tags")>>),
+               Struct("S", <<DescF("A", Bad("func"), "k=v"), Field("B", "", {}, Prim("int8"))>>)}
+OCases == {[t |-> t, ign |-> ign, tsn |-> "none"] : t \in ODesc, ign \in BOOLEAN} \cup {[t |-> t, ign |-> ign, tsn |-> "none"] : t \in UNION {OBad, ORec, OMany}, ign \in BOOLEAN}
           \cup {[t |-> t, ign |-> FALSE, tsn |-> c] : t \in OTS, c \in {"innerTyped", "innerUntyped", "innerTypes", "embOverride"}}
           \cup {[t |-> t, ign |-> FALSE, tsn |-> c] : t \in OTS2, c \in {"inner2Emb", "none"}}
 
@@ -122,7 +127,9 @@ HasBigInt(t) ==
 Exempt == Family = "O" \/ (~CheckKnown /\ (HasBigInt(cs) \/ Family = "X"))
 
 \* C04 on the model
-Sound == (phase = "done" /\ ~Exempt) => \A i \in DOMAIN Vals : Accepts(InferCode(cs), Enc(cs, Vals[i]))
+\* (under the legacy setting nil slices and nil std pointers encode null, which those schemas reject:
+\* the reason the default changed - only C16 clauses apply there)
+Sound == (phase = "done" /\ ~Exempt /\ ~LegacyNull) => \A i \in DOMAIN Vals : Accepts(InferCode(cs), Enc(cs, Vals[i]))
 \* C16 on the model
 SpecEq == (phase = "done" /\ ~Exempt) => InferCode(cs) = InferSpec(cs)
 
